@@ -193,18 +193,28 @@ TreeEvents(s) ==
              \cup {Claim("x", 1, 1, WN(i), 0, t, j, "h1", "none") : i \in {nxt} \cap 1..n, j \in {nxt + 1} \cap 1..n}
         ELSE {})
 
+(* C05 at the edge of representable durations: one tick is about 136 years, periods of one and two ticks *)
+WindowEvents(s) ==
+  Advance(s, 3, {0, 1, 2})
+  \cup Creates(s, {"u1"}, {Cfg("p1", "c1", p, MetaNone) : p \in {1, 2}})
+  \cup (IF s.nextOut["1"] <= 2 THEN Proposes({"p1"}, {1}, {s.nextOut["1"]}, {s.nextOut["1"]}, {Root(0, "T1", "h1")}) ELSE {})
+  \cup Deletes({"c1"}, {1}, 1..2)
+  \cup (IF s.l1seq["1"] <= 1 THEN Deposits({"u1"}, {1}, {"u2"}, {"d1"}, {1}, {"p0"}) ELSE {})
+  \cup {Claim("x", 1, o, W1, 0, "T1", 1, "h1", "none") : o \in 1..2}
+
 Events(s) ==
-  CASE Fam = "trees" -> TreeEvents(s)
+  CASE Fam = "window" -> WindowEvents(s)
+    [] Fam = "trees" -> TreeEvents(s)
     [] Fam = "oracle" -> OracleEvents(s)
     [] Fam = "ledger" -> LedgerEvents(s)
     [] Fam = "claims" -> ClaimEvents(s)
     [] Fam = "auth"   -> AuthEvents(s)
     [] Fam = "perm"   -> PermEvents(s)
 
-MaxB == CASE Fam = "trees" -> 1 [] Fam = "oracle" -> (IF Thorough THEN 2 ELSE 1) [] Fam = "ledger" -> 2 [] Fam = "claims" -> 2 [] Fam = "auth" -> 1 [] Fam = "perm" -> 2
+MaxB == CASE Fam = "window" -> 1 [] Fam = "trees" -> 1 [] Fam = "oracle" -> (IF Thorough THEN 2 ELSE 1) [] Fam = "ledger" -> 2 [] Fam = "claims" -> 2 [] Fam = "auth" -> 1 [] Fam = "perm" -> 2
 
 Amt0 == IF Fam = "trees" THEN MaxTreeN ELSE 8
-S0 == InitState(BKeys, Accts, Denoms, {"u1", "u2"}, Amt0, "d1", Chans, 3, MaxB, Devs)
+S0 == InitStateSec(BKeys, Accts, Denoms, {"u1", "u2"}, Amt0, "d1", Chans, 3, MaxB, Devs, IF Fam = "window" THEN 1 ELSE 2)
 
 ----------------------------------------------------------------------------
 Init == /\ st = S0
@@ -268,7 +278,7 @@ DeleteRule(s, o, t) ==
 WindowHonoured(s, o, t) ==
   IsOK(o, "FinalizeTokenWithdrawal") =>
     LET k == K(o.e.b) i == K(o.e.out) IN
-      Has(s.outs[k], i) /\ s.now + Sec > s.outs[k][i].t + s.cfg[k].period
+      Has(s.outs[k], i) /\ s.now + s.sec > s.outs[k][i].t + s.cfg[k].period
 FinalIrreversible(s, o, t) ==
   \A k \in DOMAIN s.cfg : \A i \in 1..(s.nextOut[k] - 1) :
      FinalAt(s, k, i) => (Has(t.outs[k], K(i)) /\ t.outs[k][K(i)] = s.outs[k][K(i)] /\ FinalAt(t, k, i))
